@@ -24,6 +24,9 @@ META_CLASSES = {"cover", "reachability_check"}
 INCONCLUSIVE_CLASSES = {"unwind", "unsupported_construct", "recursion"}
 
 
+PARTIAL_RUN = False  # set when --only restricts the instance set: such a run writes no evidence
+
+
 def load_props():
     out = {}
     for line in open(os.path.join(VERIF, "properties.jsonl")):
@@ -406,7 +409,7 @@ def write_evidence(prop, tier, seed, sel, results, t_start, violations=0, known_
         "wall_s": round(time.time() - t_start, 1),
         "violations": violations,
     }
-    if prop == "ALL":
+    if prop == "ALL" or PARTIAL_RUN:
         return
     path = os.path.join(VERIF, "evidence", prop + ".json")
     tmp = path + ".tmp"
@@ -432,6 +435,9 @@ def main(argv):
     if args.tier not in ("quick", "thorough"):
         print("tier must be quick or thorough")
         return 2
+    if args.only:
+        global PARTIAL_RUN
+        PARTIAL_RUN = True
     if args.list:
         for i in select(args.prop, args.tier, args.only):
             print(i["name"], "|", i["call"], "|", i["desc"])
